@@ -312,7 +312,7 @@ def usedTol (vals : List Int) (m : List (Int × Nat)) (classes : Nat) : Int :=
 `values` and class limit `maxSize` (used on the *real* output of the Rust code):
 `le` at most `maxSize` classes (+ the leading zero); `near` every input value is mapped to a
 class `1..classes` whose representative is within half the used tolerance `δ` (rounded up to
-the fix_word grid: `2·|v − rep| ≤ δ + 1`); `minimal` no smaller tolerance admits `maxSize`
+the fix_word grid: `2·|v − rep| ≤ δ + δ mod 2`, i.e. exactly half when `δ` is even); `minimal` no smaller tolerance admits `maxSize`
 classes (greedy count at `δ − 1`, which is optimal: `greedy_optimal`). -/
 def checkCompress (values : List Int) (maxSize : Nat) (table : List Int) (m : List (Int × Nat)) :
     Bool × Bool × Bool :=
@@ -324,7 +324,7 @@ def checkCompress (values : List Int) (maxSize : Nat) (table : List Int) (m : Li
     match lookupIdx m v with
     | some i => decide (1 ≤ i) && decide (i ≤ classes) &&
         (match table[i]? with
-         | some rep => decide (2 * absI (v - rep) ≤ δ + 1)
+         | some rep => decide (2 * absI (v - rep) ≤ δ + δ % 2)
          | none => false)
     | none => false)
   let minimal := decide (δ = 0) || decide (greedyCount (δ - 1) vals > maxSize)
@@ -333,15 +333,16 @@ def checkCompress (values : List Int) (maxSize : Nat) (table : List Int) (m : Li
 /-- **Specification of `compress`** in the property's words: there is a tolerance `δ ≥ 0` with
 (1) the table starts with `0` and has at most `maxSize` further entries (classes);
 (2) every input value is mapped to a class `i ≥ 1` whose representative `table[i]` is within
-half the tolerance, rounded up to the fix_word grid (`2·|v − rep| ≤ δ + 1`; an integer
-representative of two values `δ` apart with `δ` odd cannot do better);
+half the tolerance: `2·|v − rep| ≤ δ` when `δ` is even, and `2·|v − rep| ≤ δ + 1` when `δ` is odd
+(`δ + δ mod 2`: no integer representative of two values an odd `δ` apart can be within `δ/2` of
+both, `no_integer_representative_better`);
 (3) `δ` is the smallest possible: no tolerance `0 ≤ δ' < δ` lets *any* `maxSize` intervals of
 length `δ'` cover the values. -/
 def CompressSpec (values : List Int) (maxSize : Nat) (table : List Int) (m : List (Int × Nat)) : Prop :=
   ∃ δ : Int, 0 ≤ δ ∧
     (table.head? = some 0 ∧ table.length - 1 ≤ maxSize) ∧
     (∀ v ∈ values, ∃ i rep, lookupIdx m v = some i ∧ 1 ≤ i ∧ table[i]? = some rep ∧
-      2 * absI (v - rep) ≤ δ + 1) ∧
+      2 * absI (v - rep) ≤ δ + δ % 2) ∧
     (∀ δ' C, 0 ≤ δ' → δ' < δ → C.length ≤ maxSize → ¬ Covers δ' C values)
 
 /-! ## Next-larger chains (TFtoPL §84, PLtoTF §110–113) -/
@@ -403,62 +404,5 @@ def Linked (s : Nat → Option Nat) : List Nat → Prop
 def nlLoops (g : List (Nat × Nat)) (maxChar : Nat) : List (Nat × Nat) :=
   (List.range (maxChar + 1)).filterMap (fun c =>
     if isCut g c then (nxt g c).map (fun d => (c, d)) else none)
-
-/-! ### A deterministic transcription of the work-list algorithm of `NextLargerProgram::new`
-(leaf stripping, then cutting at the largest remaining non-leaf). The real code iterates a
-`HashMap` in random order; this version takes the leaves in ascending order. Used by the
-driver as a second model (`nlAlgoNext`): the cut graph it produces must equal `cutNxt`. -/
-
-def countIn (g : List (Nat × Nat)) (c : Nat) : Nat := (g.filter (fun e => e.2 == c)).length
-
-def decr (cnt : List (Nat × Nat)) (c : Nat) : List (Nat × Nat) :=
-  cnt.map (fun e => if e.1 == c then (e.1, e.2 - 1) else e)
-
-def cntOf (cnt : List (Nat × Nat)) (c : Nat) : Nat :=
-  match cnt with
-  | [] => 0
-  | (a, k) :: t => if a = c then k else cntOf t c
-
-/-- `while let Some(smaller) = leaves.pop() { … }`; returns the remaining counts and non-leaves. -/
-def strip (g : List (Nat × Nat)) : Nat → List Nat → List (Nat × Nat) → List Nat →
-    List (Nat × Nat) × List Nat
-  | 0, _, cnt, nonLeaves => (cnt, nonLeaves)
-  | _ + 1, [], cnt, nonLeaves => (cnt, nonLeaves)
-  | n + 1, s :: leaves, cnt, nonLeaves =>
-    match nxt g s with
-    | some l =>
-      let cnt := decr cnt l
-      if cntOf cnt l = 0 then strip g n (l :: leaves) cnt (nonLeaves.filter (· != l))
-      else strip g n leaves cnt nonLeaves
-    | none => strip g n leaves cnt nonLeaves
-
-/-- The outer `loop`: strip, then cut at the largest non-leaf. Returns the cut graph. -/
-def algoLoop : Nat → List (Nat × Nat) → List Nat → List (Nat × Nat) → List Nat → List (Nat × Nat)
-  | 0, g, _, _, _ => g
-  | n + 1, g, leaves, cnt, nonLeaves =>
-    let (cnt, nonLeaves) := strip g (4 * g.length + 4) leaves cnt nonLeaves
-    match nonLeaves with
-    | [] => g
-    | x :: t =>
-      let s := listMax ((x :: t).map Int.ofNat) |>.toNat
-      match nxt g s with
-      | none => g   -- the Rust code panics here ("General graph fact"); unreachable for functional graphs
-      | some l =>
-        algoLoop n (g.filter (fun e => e.1 != s)) [l] cnt ((x :: t).filter (· != l))
-
-def nodesOf (g : List (Nat × Nat)) : List Nat :=
-  (g.foldr (fun e acc => e.1 :: e.2 :: acc) []).eraseDups
-
-/-- De-duplicated graph (first match wins) so that every smaller has exactly one edge. -/
-def canonG (g : List (Nat × Nat)) : List (Nat × Nat) :=
-  (nodesOf g).filterMap (fun c => (nxt g c).map (fun d => (c, d)))
-
-def nlAlgoGraph (g0 : List (Nat × Nat)) : List (Nat × Nat) :=
-  let g := canonG g0
-  let nodes := nodesOf g
-  let cnt := nodes.map (fun c => (c, countIn g c))
-  let leaves := nodes.filter (fun c => countIn g c == 0)
-  let nonLeaves := nodes.filter (fun c => countIn g c != 0)
-  algoLoop (g.length + 1) g leaves cnt nonLeaves
 
 end C17
